@@ -504,6 +504,47 @@ def cross_position_probes(ctx):
                                'before)' % (ctor, badpos, v, okpos), case, case)
 
 
+def serial_range_end(ctx):
+    """A long-lived process reaches the end of the 32-bit serial range (the counter is moved there instead of
+    constructing 2**32 messages): whatever is still constructed carries a serial that is non-zero, fits UINT32 and was not
+    handed out before; refusing to construct is the other acceptable outcome."""
+    cls = MSG.DBusMessage
+    if not isinstance(getattr(cls, '_nextSerial', None), int):
+        ctx.count('serial_counter_not_found')
+        return
+    saved = cls._nextSerial
+    try:
+        for start in (2**32 - 3, 2**31 - 2, 2**16 - 2):
+            cls._nextSerial = start
+            seen = set()
+            for i in range(8):
+                ctx.count('evaluations')
+                ctx.count('serial_range_end_constructions')
+                try:
+                    m = (MSG.SignalMessage('/a', 'M', 'a.b') if i % 2 else
+                         MSG.MethodCallMessage('/a', 'M', interface='a.b', destination='a.b'))
+                except Exception:
+                    ctx.count('constructions_refused_at_the_end_of_the_serial_range')
+                    continue
+                s_ = m.serial
+                case = {'kind': 'serial-range-end', 'start': start}
+                w = {'counter_moved_to': start, 'message_number': i, 'serial': s_}
+                bad = not isinstance(s_, int) or s_ == 0 or s_ >= 2**32 or s_ in seen
+                try:
+                    p_ = RM.parse(m.rawMessage, strict=True)
+                    bad = bad or p_.serial != s_
+                except R.CodecError as e:
+                    w['malformed'] = str(e)
+                    bad = True
+                if bad:
+                    ctx.report('serial-not-fresh', 'with the serial counter at %d, message %d was constructed with serial %r' % (
+                        start, i, s_), w, case)
+                    return
+                seen.add(s_)
+    finally:
+        cls._nextSerial = max(saved, 2**16 + 16)
+
+
 def run(ctx):
     selfcheck.check_codec()
     si, sn = ctx.shard or (0, 1)
@@ -543,6 +584,7 @@ def run(ctx):
             _serials.add(s_)
         ctx.count('evaluations', len(_serials) - before)
         ctx.count('long_serial_run', len(_serials) - before)
+        serial_range_end(ctx)
     ctx.require(ctx.ndistinct('field_subsets') >= 32 or sn > 1, 'not every constructor x field subset reached')
     ctx.require(ctx.counters.get('foreign_big', 0) > 100, 'too few big-endian foreign messages')
 
@@ -556,5 +598,7 @@ def replay(ctx, rp):
         check_foreign(ctx, seed, case['idx'])
     elif case['kind'] == 'size':
         size_probes(ctx)
+    elif case['kind'] == 'serial-range-end':
+        serial_range_end(ctx)
     else:
         name_probes(ctx)
